@@ -119,8 +119,8 @@ def reference(Rod, nel, ref, seed=0):
     raise ValueError(ref)
 
 
-def build(case, seed=0):
-    """-> rod, system, Q   (fresh objects)"""
+def build(case, seed=0, q0=None):
+    """-> rod, system, Q   (fresh objects); q0: initial configuration different from the reference Q"""
     from cardillo import System
     from cardillo.solver import SolverOptions
     from cardillo.rods import RectangularCrossSection, Simo1986, Harsch2021, CrossSectionInertias
@@ -134,7 +134,7 @@ def build(case, seed=0):
         mat = Mat(np.array(EI), np.array(FI))
         Q = np.asarray(reference(Rod, case["nel"], case["ref"], seed), float)
         B_I = np.array([[0.7, 0.1, -0.05], [0.1, 1.1, 0.2], [-0.05, 0.2, 1.9]])
-        rod = Rod(cs, mat, case["nel"], Q=Q.copy(), q0=Q.copy(),
+        rod = Rod(cs, mat, case["nel"], Q=Q.copy(), q0=Q.copy() if q0 is None else np.asarray(q0, float).copy(),
                   cross_section_inertias=CrossSectionInertias(A_rho0=1.3, B_I_rho0=B_I))
         system = System()
         system.add(rod)
